@@ -102,14 +102,17 @@ class Run:
             return
         if route == "ctxtd":
             run = self
-
-            @context_teardown
-            async def gen():
-                for p in pre:
-                    await run.register(ctx, p)
-                exc = yield
-                await run.body_async(ctx, cb, True, exc)
-            await gen()
+            if not hasattr(self, "ctxtd_fn"):
+                # ONE decorated function, started once per registration with different arguments (as two
+                # instances of a component class share one decorated start()): every start has its own second half
+                @context_teardown
+                async def gen(ctx, cb, pre):
+                    for p in pre:
+                        await run.register(ctx, p)
+                    exc = yield
+                    await run.body_async(ctx, cb, True, exc)
+                self.ctxtd_fn = gen
+            await self.ctxtd_fn(ctx, cb, list(pre))
             return
         fn = self.make_fn(ctx, cb)
         if route == "method":
